@@ -1,6 +1,7 @@
 import PPProofs.Lemmas.ParseNoIdx
 import PPProofs.Lemmas.ParseAdv
 import PPProofs.Lemmas.ParseBound
+import PPProofs.Props.C08
 import PPProofs.Props.C14
 /-!
 # C06 — parsing is total: only ParseBaseException escapes, with sane diagnostics
@@ -173,5 +174,94 @@ example : WFIdx exLit := by
 
 example : lit1Impl 'a' [' '] 1 = .idx := by rfl
 example : parse exLit [' '] 2 0 0 true true = .fail .parse 1 := by rfl
+
+
+/-! ### scan_string: every reported span and every escaping exception lies inside the string -/
+
+theorem scanPre_bnd {N : Nat} {p : P} (hp : Bnd N p) (nd : Node) (sk : Bool) (s : List Char) (loc : Nat)
+    (hN : s.length ≤ N) (hl : loc ≤ N) : (scanPre p nd sk s loc).inB N := by
+  unfold scanPre
+  split <;> exact preParse_bnd hp _ s loc hN hl
+
+/-- the scan loop keeps all spans, and whatever escapes, inside `[0, len + 1]` -/
+theorem scanLoop_inside {p : P} (nd : Node) (root : Nat) (s : List Char) (sk ov : Bool) (hp : Bnd (s.length + 1) p) :
+    ∀ k loc left acc, (∀ m ∈ acc, m.start ≤ s.length + 1 ∧ m.stop ≤ s.length + 1) →
+      (∀ m ∈ (scanLoop p nd root s sk ov k loc left acc).ms, m.start ≤ s.length + 1 ∧ m.stop ≤ s.length + 1) ∧
+      (∀ o, (scanLoop p nd root s sk ov k loc left acc).exc = some o → o.inB (s.length + 1)) := by
+  intro k
+  induction k with
+  | zero => intro loc left acc hacc; exact ⟨by simpa [scanLoop] using hacc, by intro o h; simp [scanLoop] at h; subst h; trivial⟩
+  | succ k ih =>
+    intro loc left acc hacc
+    have nil : (∀ m ∈ acc, m.start ≤ s.length + 1 ∧ m.stop ≤ s.length + 1) := hacc
+    unfold scanLoop
+    split
+    · exact ⟨hacc, by intro o h; simp at h⟩
+    · rename_i hc
+      have hloc : loc ≤ s.length := by
+        by_cases h : loc > s.length
+        · exfalso; apply hc; simp [h]
+        · omega
+      have hpre := scanPre_bnd hp nd sk s loc (by omega) (by omega)
+      cases hpr : scanPre p nd sk s loc with
+      | abort o =>
+        rw [hpr] at hpre
+        cases o with
+        | ok e ts => exact ⟨hacc, by intro o h; simp at h; subst h; exact hpre⟩
+        | fail c l => cases c <;> exact ⟨hacc, by intro o h; simp at h; subst h; first | trivial | exact hpre⟩
+        | idx => exact ⟨hacc, by intro o h; simp at h; subst h; trivial⟩
+        | hang => exact ⟨hacc, by intro o h; simp at h; subst h; trivial⟩
+      | «at» preloc =>
+        rw [hpr] at hpre
+        simp only
+        have h0 := hp root preloc true false hpre
+        cases hq : p root preloc true false with
+        | hang => exact ⟨hacc, by intro o h; simp at h; subst h; trivial⟩
+        | idx => exact ⟨hacc, by intro o h; simp at h; subst h; trivial⟩
+        | fail c l =>
+          rw [hq] at h0
+          cases c with
+          | parse => exact ih _ _ _ hacc
+          | fatal => exact ⟨hacc, by intro o h; simp at h; subst h; exact h0⟩
+          | «syntax» => exact ⟨hacc, by intro o h; simp at h; subst h; exact h0⟩
+        | ok nextLoc ts =>
+          rw [hq] at h0
+          simp only
+          by_cases hgt : nextLoc > loc
+          · simp only [hgt, if_true]
+            have hacc' : ∀ m ∈ acc ++ [⟨ts, preloc, nextLoc⟩], m.start ≤ s.length + 1 ∧ m.stop ≤ s.length + 1 := by
+              intro m hm
+              rcases List.mem_append.mp hm with h | h
+              · exact hacc m h
+              · simp at h; subst h; exact ⟨hpre, h0⟩
+            cases ov with
+            | false => simp only [Bool.false_eq_true, if_false]; exact ih _ _ _ hacc'
+            | true => simp only [if_true, hpr]; exact ih _ _ _ hacc'
+          · simp only [hgt, if_false]
+            exact ih _ _ _ hacc
+
+/-- **scan_string** (hence search_string, transform_string, split): every reported `(tokens, start, end)` has
+    `start ≤ end ≤ len + 1`, and an exception that escapes the generator has `loc ≤ len + 1` — every grammar, input,
+    fuel and option value -/
+theorem scanString_locations_inside (g : Grammar) (s : List Char) (f root mm : Nat) (sk ov : Bool) :
+    (∀ m ∈ (scanString (parse g s f) g root s mm sk ov).ms, m.start ≤ m.stop ∧ m.stop ≤ s.length + 1) ∧
+    (∀ k l, (scanString (parse g s f) g root s mm sk ov).exc = some (.fail k l) → l ≤ s.length + 1) := by
+  have hB := parse_bnd g s f
+  constructor
+  · intro m hm
+    refine ⟨scan_match_forward_parse g root s f mm sk ov m hm, ?_⟩
+    unfold scanString at hm
+    cases hg : g[root]? with
+    | none => rw [hg] at hm; simp at hm
+    | some nd =>
+      rw [hg] at hm
+      exact ((scanLoop_inside nd root s sk ov hB _ 0 mm [] (by simp)).1 m hm).2
+  · intro k l h
+    unfold scanString at h
+    cases hg : g[root]? with
+    | none => rw [hg] at h; simp at h
+    | some nd =>
+      rw [hg] at h
+      exact (scanLoop_inside nd root s sk ov hB _ 0 mm [] (by simp)).2 _ h
 
 end PP.Parse
